@@ -5,8 +5,6 @@ cd "$(dirname "$0")"
 rm -f modelrun
 cp ../coq/Extract/model.ml ../coq/Extract/model.mli .
 rm -f modelrun
-EXTRA=""
-[ -f libm.ml ] && EXTRA="libm.ml"
-[ -f libm_stubs.c ] && EXTRA="libm_stubs.c $EXTRA"
-ocamlfind ocamlopt -O2 -w -a -package str model.mli model.ml $EXTRA entries.ml driver.ml -o modelrun 2>build.err || { cat build.err; exit 1; }
+# libm.ml + libm_stubs.c: the libm oracle handed to entries marked "libm"
+ocamlfind ocamlopt -O2 -w -a -package str libm_stubs.c model.mli model.ml libm.ml entries.ml driver.ml -cclib -lm -o modelrun 2>build.err || { cat build.err; exit 1; }
 test -x modelrun
